@@ -393,8 +393,11 @@ impl Gen {
                 o
             }
             66..=73 => {
-                let kinds = ["iter", "keys", "values", "iter_mut", "values_mut", "ref_into_iter", "mut_into_iter"];
+                let kinds = ["iter", "keys", "values", "iter_mut", "values_mut", "ref_into_iter", "mut_into_iter", "zip"];
                 let kind = *kinds.choose(&mut self.rng).unwrap();
+                if kind == "zip" {
+                    return json!({"op":"Iter","s":s,"kind":"zip"});
+                }
                 let mut o = json!({"op":"Iter","s":s,"kind":kind,"extra":2});
                 if kind.contains("mut") && self.rng.gen_bool(0.7) {
                     o["add"] = json!(self.addv());
